@@ -16,10 +16,10 @@ func withCleans(m *PktModel, max uint64) *PktModel {
 // CheckC02: exactly-once delivery; fresh committed packets are accepted.
 func modelsC02(tier string) ([]*PktModel, []int) {
 	props := map[string]bool{"C02": true}
-	models := []*PktModel{core2("core2", props, "try"), core3("core3", props, "try"), withCleans(core2("core2-cleans", props, "try"), 3)}
-	depth := []int{7, 6, 8}
+	models := []*PktModel{core2("core2", props, "try"), core3("core3", props, "try"), withCleans(core2("core2-cleans", props, "try"), 3), core3RulesOpenedLater("core3-rules-opened-later", props, "try")}
+	depth := []int{7, 6, 8, 8}
 	if tier == "thorough" {
-		depth = []int{10, 9, 11}
+		depth = []int{10, 9, 11, 10}
 		models = append(models, withCleans(core3("core3-cleans", props, "try"), 2))
 		depth = append(depth, 9)
 	}
@@ -33,7 +33,7 @@ func CheckC02(tier string) int {
 	// verbatim afterwards): a second acceptance of a delivered packet is a violation of this property
 	var extra []explore.Finding
 	for _, f := range append(longChannelCleans(tier), crossChannelCleans()...) {
-		if strings.HasPrefix(f.Signature, "recv-") {
+		if strings.HasPrefix(f.Signature, "recv-") || f.Property == "C02" {
 			f.Property = "C02"
 			extra = append(extra, f)
 		}
@@ -47,10 +47,10 @@ func CheckC02(tier string) int {
 // CheckC03: acknowledgements authentic, once, never overwritten.
 func modelsC03(tier string) ([]*PktModel, []int) {
 	props := map[string]bool{"C03": true}
-	models := []*PktModel{core2("core2", props, "try"), core3("core3", props, "try")}
-	depth := []int{7, 6}
+	models := []*PktModel{core2("core2", props, "try"), core3("core3", props, "try"), core3RulesOpenedLater("core3-rules-opened-later", props, "try")}
+	depth := []int{7, 6, 8}
 	if tier == "thorough" {
-		depth = []int{10, 9}
+		depth = []int{10, 9, 10}
 		core4 := core3("core4", props, "try")
 		core4.Names = []string{A, B, C, D}
 		models = append(models, withCleans(core2("core2-cleans", props, "try"), 3), withCleans(core3("core3-cleans", props, "try"), 2), core4)
